@@ -205,6 +205,92 @@ pub fn main(args: &[String]) {
                 }
             });
         }
+        Some("corpus") => {
+            // V on the repository's fonts: the arrays of every format 4 / 12 subtable and what the readers answer at the
+            // segment edges (+-1) and inside segments; CmapTrace!TCmapRead evaluates the specification's lookup on the
+            // same arrays. Enumeration (ascending, each pair = the lookup's answer) is checked here and flagged.
+            for dir in ["/repo/font-test-data/test_data/ttf", "/repo/font-test-data/test_data/otf", "/repo/klippa/test-data/fonts"] {
+                let Ok(rd) = std::fs::read_dir(dir) else { continue };
+                let mut files: Vec<_> = rd.filter_map(|e| e.ok()).map(|e| e.path()).filter(|p| p.extension().map(|e| e == "ttf" || e == "otf").unwrap_or(false)).collect();
+                files.sort();
+                for path in files {
+                    let Ok(bytes) = std::fs::read(&path) else { continue };
+                    let Ok(f) = FontRef::new(&bytes) else { continue };
+                    let Ok(cmap) = read_fonts::TableProvider::cmap(&f) else { continue };
+                    let name = path.file_name().unwrap().to_string_lossy().to_string();
+                    rep.add("corpus_fonts_with_cmap", 1);
+                    for (ri, rec) in cmap.encoding_records().iter().enumerate() {
+                        let case = json!({"kind": "cmap-corpus", "font": name, "record": ri});
+                        let sub = match guarded(|| rec.subtable(cmap.offset_data())) {
+                            Ok(Ok(s)) => s,
+                            Ok(Err(_)) => continue,
+                            Err(p) => {
+                                rep.violation(&format!("{name}: reading cmap subtable {ri} panicked: {p}"), case);
+                                continue;
+                            }
+                        };
+                        let mut edges: BTreeSet<u32> = BTreeSet::new();
+                        let (fmt, arrays, lookup, pairs): (u32, Value, Box<dyn Fn(u32) -> u32>, Vec<(u32, u32)>) = match &sub {
+                            CmapSubtable::Format4(t) => {
+                                let end: Vec<u32> = t.end_code().iter().map(|x| x.get() as u32).collect();
+                                let start: Vec<u32> = t.start_code().iter().map(|x| x.get() as u32).collect();
+                                if end.len() > 600 {
+                                    continue;
+                                }
+                                edges.extend(end.iter().chain(start.iter()).copied());
+                                let t2 = t.clone();
+                                (4, json!({"end": end, "start": start,
+                                    "delta": t.id_delta().iter().map(|x| x.get() as i32).collect::<Vec<_>>(),
+                                    "rangeOffset": t.id_range_offsets().iter().map(|x| x.get() as u32).collect::<Vec<_>>(),
+                                    "gia": t.glyph_id_array().iter().map(|x| x.get() as u32).collect::<Vec<_>>()}),
+                                 Box::new(move |c| t2.map_codepoint(c).map(|g| g.to_u32()).unwrap_or(0)),
+                                 t.iter().take(200_000).map(|(c, g)| (c, g.to_u32())).collect())
+                            }
+                            CmapSubtable::Format12(t) => {
+                                if t.groups().len() > 600 {
+                                    continue;
+                                }
+                                for g in t.groups() {
+                                    edges.insert(g.start_char_code());
+                                    edges.insert(g.end_char_code());
+                                }
+                                let t2 = t.clone();
+                                (12, json!(t.groups().iter().map(|g| json!({"s": g.start_char_code(), "e": g.end_char_code(), "g": g.start_glyph_id()})).collect::<Vec<_>>()),
+                                 Box::new(move |c| t2.map_codepoint(c).map(|g| g.to_u32()).unwrap_or(0)),
+                                 t.iter().take(200_000).map(|(c, g)| (c, g.to_u32())).collect())
+                            }
+                            _ => continue,
+                        };
+                        rep.evaluations += 1;
+                        let mut probes: BTreeSet<u32> = BTreeSet::from([0, 0x41, 0xFFFE, 0xFFFF, 0x10000, 0x10FFFF]);
+                        for e in &edges {
+                            probes.extend([e.saturating_sub(1), *e, e.saturating_add(1).min(0x10FFFF)]);
+                        }
+                        let all: Vec<u32> = probes.into_iter().collect();
+                        let step = all.len().div_ceil(400).max(1);
+                        let answers: Vec<(u32, u32)> = all.iter().step_by(step).map(|c| (*c, lookup(*c))).collect();
+                        // enumeration: strictly ascending, every pair is what the lookup answers
+                        let mut enum_ok = true;
+                        for w in pairs.windows(2) {
+                            if w[0].0 >= w[1].0 {
+                                enum_ok = false;
+                            }
+                        }
+                        for (c, g) in pairs.iter().step_by((pairs.len() / 3000).max(1)) {
+                            if lookup(*c) != *g {
+                                enum_ok = false;
+                            }
+                        }
+                        if !enum_ok {
+                            rep.violation(&format!("{name}: cmap subtable {ri} (format {fmt}): enumeration is not ascending or disagrees with the lookup"), case.clone());
+                        }
+                        ev.push(json!({"op": "cmap_read", "font": name, "record": ri, "fmt": fmt, "f4": if fmt == 4 { arrays.clone() } else { json!({"end": [], "start": [], "delta": [], "rangeOffset": [], "gia": []}) },
+                            "f12": if fmt == 12 { arrays } else { json!([]) }, "probes": answers, "enumerated": pairs.len(), "enum_ok": enum_ok}));
+                        rep.distinct += 1;
+                    }
+                }
+            }
+        }
         Some("random") => {
             let seed: u64 = arg_after(args, "--seed").map(|s| s.parse().unwrap()).unwrap_or(0);
             let n: usize = arg_after(args, "--n").map(|s| s.parse().unwrap()).unwrap_or(60);
